@@ -117,11 +117,50 @@ NEEDS_R2 = {
  "C18-m1": ("word_gen.go sfWrap: a 'cannot happen' log line quoting the separator when len(sep) != Length (bytes vs characters)", "a separator recipe over multi-byte characters"),
  "C18-m2": ("char_sets.go requireFilter: logs the set name and the whole candidate when a required set was emptied by exclusion", "a required set entirely covered by the exclusions"),
 }
+NEEDS_R3 = {
+ "C01-m1": ("util.go randomUint32n: the power-of-two path takes k bits from a package-level 32-bit pool whose refill ORs a shifted word in and loses the shifted-out bits", "a sequence of power-of-two draws whose widths do not divide 32 (every 11th draw over n=8 has a forced zero bit)"),
+ "C01-m2": ("util.go randomUint32n: final `v % n` replaced by a multiply-shift reduction while the rejection threshold is still the one for the modulo", "any bound that is not a power of two (n=18328: alternative 0 gets one raw word too many; above 2^31 two accepted words collide)"),
+ "C02-m1": ("char_sets.go requireFilter: single pass crediting each character to the first unmet required set, then break — a character shared by two sets satisfies only one", "overlapping required sets and a candidate whose only member of one set is the shared character"),
+ "C02-m2": ("char_gen.go Generate: the filter is skipped when SuccessProbability() >= 1.0 (a float32 that rounds to exactly 1 for long passwords)", "Length >= 70 with a required class and a stream whose candidate misses it"),
+ "C03-m1": ("char_gen.go buildCharacterList: excluded classes are masked out of Allow/Require and no longer added to the excluded characters", "a class bit both excluded and allowed/required, with a character of that class arriving through AllowChars or a custom required set"),
+ "C03-m2": ("char_gen.go Generate: candidates built in a package-level token buffer that the returned Password keeps", "two Generate calls with the first *Password retained"),
+ "C04-m1": ("word_gen.go Generate (scheme one): a selected word that strings.Title leaves unchanged passes the capital on to the next position", "scheme one, a list with an un-capitalisable entry and the position draw landing on it"),
+ "C04-m2": ("util.go + word_gen.go: the rejection bound for the word draw is cached on the WordList from len(list) before de-duplication", "an input that shrinks under normalisation and a raw word among the top few 32-bit values"),
+ "C05-m1": ("word_gen.go: the scheme-all position map is built once and kept on the shared *WordList with no Length in the key", "two scheme-all recipes on one list, the shorter one used first"),
+ "C05-m2": ("word_gen.go Generate switches on strings.ToLower of the scheme while Entropy() compares the raw string", "a scheme string differing from a constant only by case (All, One, RANDOM)"),
+ "C06-m1": ("char_strength.go n(): 'implied' required sets pruned with the subset test the wrong way round — the binding subset is dropped", "one required set a proper subset of another"),
+ "C06-m2": ("word_gen.go Generate: a non-empty SeparatorChar overrides SeparatorFunc while Entropy() still adds the function's entropy", "both separator fields set on one recipe"),
+ "C07-m1": ("char_strength.go n(): recursion memoised per call by (alphabet cardinality, number of sets left)", "three or more required sets, two sub-alphabets of equal size overlapping a later set differently"),
+ "C07-m2": ("char_gen.go Entropy(): process-wide cache keyed by the fields with RequireSets flattened by strings.Join", "two recipes in one process whose RequireSets concatenate to the same string"),
+ "C08-m1": ("word_gen.go NewWordList: unCapitalizableCount = len(input) - capable, counted against the input slice instead of the kept words", "a repeated input word or capitalised twin on an all-capitalisable list with scheme random/one"),
+ "C08-m2": ("word_gen.go Entropy(): separator entropy memoised in a package-level map keyed by the function's code pointer — all NewSFFunction closures collide", "two recipes with different preset separators evaluated in one process"),
+ "C09-m1": ("util.go randomUint32: source errors whose Temporary() is true are retried up to three times, bytes summed across attempts", "a read failing with EAGAIN/EINTR or a wrapped temporary error"),
+ "C09-m2": ("util.go randomUint32n: bound-2 draws served from a package-level bit reservoir", "coin flips after an earlier generation, or after a recovered source failure at a refill"),
+ "C10-m1": ("word_gen.go NewWordList: the caller's slice is reused as the word list when nothing was dropped, and sorted in place", "a list without duplicates or twins (the slice is sorted and stays shared)"),
+ "C10-m2": ("word_gen.go NewWordList: results memoised by {&list[0], len(list)}", "a second construction through the same buffer with the same length and different words"),
+ "C11-m1": ("token.go isAllAtoms 'simplified' to 'no separator present'", "tokens with a type byte of 2 or more (from a full index) fed back to MakeIndices"),
+ "C11-m2": ("token.go Tokenize: rejects a non-positive entropy argument", "a password of entropy 0 (one-word list) or any zero/negative/infinite entropy value"),
+ "C12-m1": ("token.go Tokenize: the character-kind token slice comes from a sync.Pool and is put back while the returned Password references it", "two Tokenize calls with kind byte 0, the first result kept"),
+ "C12-m2": ("token.go: hand-written IndexKind.String() guarding with > instead of >=, used in the default branch's error", "kind byte 4 exactly (panic instead of error)"),
+ "C13-m1": ("char_gen.go hasAcceptableFailRate: the refusal threshold is computed once in a package-level var — later MaxTrials/MaxFailRate are ignored", "a caller who changes MaxTrials or MaxFailRate"),
+ "C13-m2": ("char_gen.go Generate: the character loop `for i = 0` shares the trial counter", "a stream on which attempts fail (never terminates when Length+1 < MaxTrials, one attempt only otherwise)"),
+ "C14-m1": ("char_gen.go buildCharacterList: the 'Dunno' fallback name is written back into the package-level charTypeNamesByFlag map", "Require: Ambiguous on first use in the process, concurrently with any recipe that requires a class"),
+ "C14-m2": ("word_gen.go NewSFFunction: `if r.Length < 1 { r.Length = 1 }` inside the returned closure writes its captured recipe", "a constructed separator from a recipe with Length unset, shared by goroutines"),
+ "C15-m1": ("char_gen.go: class sets cached in a package-level table; the excluded set starts as an alias of a table entry and ExcludeChars are added into it", "one call on {Exclude: Ambiguous, ExcludeChars: ...} — every later recipe excluding Ambiguous loses those characters"),
+ "C15-m2": ("char_gen.go: the pre-flight verdict is memoised behind an unexported pointer allocated by NewCharRecipe and copied with the value", "NewCharRecipe, a refused or accepted Generate, then a field update"),
+ "C16-m1": ("word_gen.go: the digit separator presets built in an init() loop whose closure captures the range variable (go 1.14 semantics)", "SFDigitsNoAmbiguous1/2 (draw from all ten digits, report 3.32 bits)"),
+ "C16-m2": ("char_gen.go NewCharRecipe returns a pointer to one shared package-level default recipe", "a second NewCharRecipe after the caller modified the first"),
+ "C17-m1": ("cmd/opgen --entropy prints fmt.Println(math.Round(e*100)/100) instead of %.2f", "an entropy whose second decimal is zero (28.2 instead of 28.20)"),
+ "C17-m2": ("cmd/opgen: a new exit constant inserted before ExitUsage in the iota block", "missing subcommand, unknown subcommand or unknown --list (exit 3 instead of 2)"),
+ "C18-m1": ("token.go Tokens.Kind(): logs %v of the tokens before returning FullIndexKind", "Generate followed by MakeIndices on an irregular sequence (empty word, or a separator recipe giving up)"),
+ "C18-m2": ("char_gen.go Generate: a trace gated on the SPG_TRACE environment variable logs every rejected candidate", "SPG_TRACE set and a recipe that retries"),
+}
+
 
 def main():
     src = sys.argv[1]
     rnd = sys.argv[2] if len(sys.argv) > 2 else ""        # "" for round 1, "r2" for round 2
-    needs = NEEDS_R2 if rnd == "r2" else NEEDS
+    needs = NEEDS_R3 if rnd == "r3" else NEEDS_R2 if rnd == "r2" else NEEDS
     verify = {}
     vf = os.path.join(src, "verify.jsonl")
     if os.path.exists(vf):
